@@ -283,7 +283,7 @@ def main(tier: str, seed: int):
     sess = Session(PID, tier, seed, level="exploration", rule=RULE)
     sess.assume("the store double is all-or-nothing (a scripted failure raises before anything is applied) and returns numeric edit counts; stores that partially apply a failing batch or return non-numeric counts are outside the generated domain")
     sess.assume("ctx carries cfg and config bound to the same validated configuration (the shape under which the T4/apply settings are read)")
-    total = 140 if tier == "quick" else 3000
+    total = 140 if tier == "quick" else 15000
     nchunks = par.NWORK
     per = max(1, total // nchunks)
     for ex in par.pmap(_chunk, [(tier, seed, i, per) for i in range(nchunks)]):
